@@ -20,7 +20,7 @@ def run(ctx):
             ctx.broken.append((f"translator {tr}: source no longer has the translatable form", (r.stdout + r.stderr)[-2000:]))
         else:
             ctx.cov.setdefault("translators", {})[tr] = r.stdout.strip()
-    ctx.prove(extra_modules=["GMGProofs.Props.C19s", "GMGProofs.Props.C19i"])
+    ctx.prove(extra_modules=["GMGProofs.Props.C19s", "GMGProofs.Props.C19i", "GMGProofs.Props.C19e"])
     h = ctx.build_harness("h_inputfn")
     n = "40" if ctx.tier == "quick" else "2000"
     ctx.pipe([h, "points", n], "inputfn", label="input-functions")
